@@ -358,8 +358,13 @@ def find_irrelevant_type(etype: tp.Type, types: List[tp.Type],
         # type arguments in order to pass type arguments that are irrelevant
         # with any parameterized type created by this type constructor.
         type_list = [t for t in types if t != etype]
-        return get_irrelevant_parameterized_type(
+        t = get_irrelevant_parameterized_type(
                 t, type_list, type_args_map, factory)
+    # An instantiation of a generic class may be related to `etype` whatever
+    # its type arguments are (e.g., every instantiation of a generic subclass),
+    # or through variance.
+    if t is not None and (t.is_subtype(etype) or etype.is_subtype(t)):
+        return None
     return t
 
 
